@@ -464,6 +464,16 @@ def rule_nested_is_a_pipefunc(ctx: Ctx) -> None:
             f"NestedPipeFunc.__init__ creates every attribute that pipefunc.map reads from the functions of a pipeline ({len(miss)} attribute(s) of PipeFunc.__init__ are not created: {sorted(miss)}; none of them is read there)" if not in_map else
             f"`{norm(first[1][0][1])}` is read from every function of the pipeline, but NestedPipeFunc.__init__ (which does not call PipeFunc.__init__) never creates `{first[0]}`: "
             "Pipeline.map raises AttributeError for every pipeline that contains a NestedPipeFunc - nest_funcs is value-preserving under pipeline(...) only", key="nested-has-map-attributes")
+    # the parameter names of the nested function are the (possibly SCOPED, i.e. dotted) names of the internal pipeline's inputs;
+    # inspect.Parameter only accepts identifiers
+    op = dict.get(nf.methods, "original_parameters")
+    if op is not None:
+        mk = [c for c in ast.walk(op.node) if isinstance(c, ast.Call) and dotted(c.func) in ("inspect.Parameter", "Parameter") and c.args]
+        d_op = Defs(op)
+        from_inner = [c for c in mk if isinstance(c.args[0], ast.Name) and any(w in Scope(ctx, op).text() for w in ("_all_inputs", ".parameters"))]
+        ctx.add("9-details", op, from_inner[0] if from_inner else op.node, not from_inner, "the parameter table of a NestedPipeFunc does not require identifier names" if not from_inner else
+                f"`{norm(from_inner[0])[:60]}` is built from the input names of the internal pipeline, which are dotted after update_scope: inspect.Parameter rejects them - "
+                "update_scope followed by nest_funcs raises ValueError(\"'s.a' is not a valid parameter name\"), the composition cannot be constructed", key="nested-parameter-names")
     fn = dict.get(nf.methods, "func")
     if fn is None:
         ctx.add("9-details", nf.qualname, nf.loc, None, "UNDECIDED: NestedPipeFunc.func not found", key="nested-picks-internal-names")
